@@ -63,74 +63,6 @@ for _f in sorted(_glob.glob(os.path.join(HERE, 'specs', '*.py'))):
     exec(compile(open(_f).read(), _f, 'exec'), globals())
 
 
-# ---- C13: excelutil._ArrayFormulaContext.fit_to_range.  The context object is
-# modelled by its ctx_address, an address by its size, an AddressSize by the
-# pair (height, width) (coq/Lib/Py.v attr_*, py_address_size).
-_specs_before_arrayfit = specs
-
-
-def specs(repo):     # noqa: F811
-    S = _specs_before_arrayfit(repo)
-    ext = excelutil_externs()
-    ext['list_like'] = ('func', 'excelutil.f_list_like',
-                        FuncInfo('list_like', ['data'], {}, False, 'f_list_like'))
-    S['arrayfit'] = dict(
-        pymod='pycel.excelutil',
-        path=os.path.join(repo, 'src', 'pycel', 'excelutil.py'),
-        consts=[],
-        funcs=['_ArrayFormulaContext.fit_to_range'],
-        externs=ext,
-        libcalls={'AddressSize': ('py_address_size', 2),
-                  '__attrs__': {'ctx_address': 'attr_ctx_address', 'size': 'attr_size',
-                                'width': 'attr_width', 'height': 'attr_height'}},
-    )
-    return S
-
-
-ORDER = ORDER + ['arrayfit']
-
-
-# ---- C16: pycel.lib.lookup — the bodies of match/vlookup/hlookup/lookup are
-# plain Python over tuples once `_match` is given (closures + bisect on
-# ExcelCmp objects: hand-modelled in coq/Model/LookupCore.v, tied by the
-# correspondence run); index (closure, numpy branch) is hand-modelled too.
-# The generated file has to Require the hand-written core from Model/, not Gen/.
-_specs_before_lookup = specs
-
-
-def specs(repo):     # noqa: F811
-    import ast as _ast
-    S = _specs_before_lookup(repo)
-    ext = excelutil_externs()
-    ext['list_like'] = ('func', 'excelutil.f_list_like',
-                        FuncInfo('list_like', ['data'], {}, False, 'f_list_like'))
-    ext['_match'] = ('func', 'LookupCore.match_',
-                     FuncInfo('_match', ['lookup_value', 'lookup_array', 'match_type'],
-                              {'match_type': _ast.Constant(value=1)}, False, 'match_'))
-    S['lookup'] = dict(
-        pymod='pycel.lib.lookup',
-        path=os.path.join(repo, 'src', 'pycel', 'lib', 'lookup.py'),
-        consts=[],
-        funcs=['hlookup', 'vlookup', 'lookup', 'match'],
-        externs=ext,
-        libcalls={},
-    )
-    return S
-
-
-ORDER = ORDER + ['lookup']
-
-_MT_before_lookup = ModuleTranslator
-
-
-class ModuleTranslator(_MT_before_lookup):     # noqa: F811
-    def translate(self):
-        text = super().translate()
-        if self.modname == 'lookup':
-            text = text.replace('From PV Require Gen.LookupCore.', 'From PV Require Model.LookupCore.')
-        return text
-
-
 def generate(repo, out, modules=None):
     sys.path.insert(0, os.path.join(repo, 'src'))
     S = specs(repo)
